@@ -1,7 +1,7 @@
 (* C20/Property.v — property C20 (link URIs select the right driver and parse to the right radio settings).
    Theorems only; each is closed by `exact <lemma of Proofs_*.v>` and followed by Print Assumptions.
-   The model (C20/Model.v) describes the code with fixes/F20.patch and fixes/F20b.patch applied. *)
-From CF Require Import Common.Bytes C20.Model C20.Proofs_a C20.Proofs_b C20.Proofs_c C20.Proofs_d C20.Proofs_e C20.Proofs_f.
+   The model (C20/Model.v) describes the code with fixes/F20.patch, F20b.patch and F20c.patch applied. *)
+From CF Require Import Common.Bytes C20.Model C20.Proofs_a C20.Proofs_b C20.Proofs_c C20.Proofs_d C20.Proofs_e C20.Proofs_f C20.Proofs_g.
 Open Scope Z_scope.
 
 (* Every well-formed radio URI parses to exactly what it names.  Dongle: a number below 10^9 or a serial
@@ -155,3 +155,46 @@ Print Assumptions C20_net_wellformed.
 Theorem C20_net_wrong_scheme : forall d uri, startswith (scheme_prefix d) uri = false -> net_parse d uri = NWrong.
 Proof. exact net_parse_wrong_scheme. Qed.
 Print Assumptions C20_net_wrong_scheme.
+
+(* ---- RadioDriver.scan_selected (model of the code with fixes/F20c.patch) *)
+
+(* a well-formed link (as parse_uri understands it, with a channel) is probed on exactly the channel and rate that
+   parse_uri returns for it: omitted rate = 2M, 250K = rate 0; address, dongle and query are not used for probing *)
+Theorem C20_scan_selected_link : forall serials n t l,
+  0 <= n < 10 ^ 9 -> has_channel t = true -> tail_ok t -> lim_ok l -> tail_short t -> lim_short l ->
+  sel_parse (fmt_uri (DNum n) t l) = SelOk (tail_channel t) (tail_rate t) /\
+  parse_uri serials (fmt_uri (DNum n) t l) = POk n (tail_channel t) (tail_rate t) (tail_address t) l.
+Proof. exact sel_parse_fmt. Qed.
+Print Assumptions C20_scan_selected_link.
+
+(* for every list of such links the list of (channel, rate) probed equals map parse_uri *)
+Theorem C20_scan_selected_settings : forall serials specs, Forall link_ok specs ->
+  scan_selected_settings (map link_of specs) = Some (map (fun s => pr_pair (parse_uri serials (link_of s))) specs).
+Proof. exact scan_selected_settings_spec. Qed.
+Print Assumptions C20_scan_selected_settings.
+
+(* the report: one URI per probed pair on which a Crazyflie answers at the probed address, in order ... *)
+Theorem C20_scan_selected_reports : forall air addr links ps, scan_selected_settings links = Some ps ->
+  scan_selected air addr links = Some (map (fun p => sel_uri addr (fst p) (snd p)) (filter (answers air addr) ps)).
+Proof. exact scan_selected_reports. Qed.
+Print Assumptions C20_scan_selected_reports.
+
+(* ... each of which parses back to the probed channel, rate and address (the connected link's) *)
+Theorem C20_scan_selected_roundtrip : forall serials addr ch rt,
+  List.length addr = 5%nat -> bytes addr -> 0 <= ch -> short ch -> rate_ok rt ->
+  parse_uri serials (sel_uri addr ch rt) = POk 0 ch rt addr None.
+Proof. exact sel_uri_roundtrip. Qed.
+Print Assumptions C20_scan_selected_roundtrip.
+
+(* refutations: (1) "rate or DR_2MPS" as default turns 250K (= 0) into 2M; (2) the unrepaired report format
+   'radio://0/<ch>/<rate>' parses back to the default address, not the probed one (finding F20c) *)
+Theorem C20_falsy_default_refuted :
+  sel_parse (s2l "radio://0/100/250K") = SelOk 100 0 /\ falsy_or_2m 0 = 2 /\ falsy_or_2m 0 <> 0.
+Proof. exact falsy_default_refuted. Qed.
+Print Assumptions C20_falsy_default_refuted.
+
+Theorem C20_scan_selected_head_format_refuted :
+  exists addr ch rt, parse_uri [] (sel_uri_head ch rt) = POk 0 ch rt default_addr None /\ addr <> default_addr /\
+                     parse_uri [] (sel_uri addr ch rt) = POk 0 ch rt addr None.
+Proof. exact scan_selected_head_format_refuted. Qed.
+Print Assumptions C20_scan_selected_head_format_refuted.
